@@ -10,7 +10,9 @@ Theorem c11_hook_at_most_once : forall P hr es, core_ok P = true -> hooks (runs 
 Proof. exact hooks_at_most_once. Qed.
 Print Assumptions c11_hook_at_most_once.
 
-(* 2. whenever a side reports closed, its hook has run exactly once, the objects it held are released, its channel is closed *)
+(* 2. whenever a side reports closed - observed BETWEEN entry points, i.e. when close()/serve()/the dispatch has returned control: inside
+      close() itself the flag is set first and the hook runs last, a state [do_close] passes through and another thread could see - its
+      hook has run exactly once, the objects it held are released, its channel is closed *)
 Theorem c11_closed_means_clean : forall P hr es, core_ok P = true -> closed (runs P hr es fresh) = true -> ended_clean (runs P hr es fresh).
 Proof. exact closed_means_clean. Qed.
 Print Assumptions c11_closed_means_clean.
